@@ -319,8 +319,11 @@ func VerticalZoom(inputZoom int64, vIndex int64, outputZoom int64) []string {
 		maxVparam = minVparam + vVoxelNum - 1
 	} else if vZoomDiff < 0 {
 		// 垂直精度が下がった場合
-		// 変換後の v 成分の最小値を定義
+		// 変換後の v 成分の最小値を定義 (地下の負のインデックスも含め、切り捨てではなく床関数で親ボクセルを求める)
 		minVparam = vIndex / vVoxelNum
+		if vIndex%vVoxelNum < 0 {
+			minVparam--
+		}
 
 		// 変換後の z 成分の最大値を定義
 		maxVparam = minVparam
